@@ -217,7 +217,8 @@ def h_v2(ctx, direction, classes):
     subs = [_v2_vals(ctx, direction, 's%d.' % i, c, False) for i, c in enumerate(classes[1:])]
     v['bpdu'] = subs
     lay = lay_v2(direction, v, True)
-    for s in subs: lay += lay_v2(direction, s, False)
+    starts = []
+    for s in subs: starts.append(len(lay)); lay += lay_v2(direction, s, False)
     with env.symbolic(ctx):
         _roundtrip(ctx, cls, v, lay, ('soft-bits', 'hard-bits'))
         # reserved bits: flip them in the encoding -> same decoded values
@@ -226,6 +227,11 @@ def h_v2(ctx, direction, classes):
         o[0] = o[0] + rfu3 * 8
         o[1] = o[1] + rfu6 * 64
         if direction == 'tx': o[5:8] = sp
+        for i, st in enumerate(starts):
+            # batched sub-PDUs: the RFU nibble and the spare bit of their first octet, and the spare octets of a Tx sub-PDU
+            hi = ctx.int('s%d.rfu.hi' % i, 0, 15); b3 = ctx.int('s%d.rfu.b3' % i, 0, 1)
+            o[st] = o[st] + hi * 16 + b3 * 8
+            if direction == 'tx': o[st + 5:st + 8] = ctx.ints('s%d.rfu.spare' % i, 3, 0, 255)
         d = cls()
         with ctx.no_raise('decode-rfu:no-exception'):
             d.from_bytes(mk_bytes(ctx, o))
